@@ -513,10 +513,13 @@ class Limbs:
             return self.fit(v, bits, why) if not signed else self._signed_fit(v, M, why)
         if op == "*":
             v = Val(pmul(L.p, R.p), L.ub * R.ub)
+            for (x, y) in ((L, R), (R, L)):
+                if set(y.p) == {()} and y.p[()] == 2 and x.ub < M:
+                    v.add = (None, [x.p, x.p], None)          # 2 x is x + x: `r < x` after r = 2 x mod 2^w is its carry
             return self.fit(v, bits, why) if not signed else self._signed_fit(v, M, why)
         if op == "<<":
             s = self._const(R)
-            v = Val(pscale(L.p, 1 << s), L.ub << s)
+            v = Val(pscale(L.p, 1 << s), L.ub << s, (None, [L.p, L.p], None) if s == 1 and L.ub < M else None)
             return self.fit(v, bits, why) if not signed else self._signed_fit(v, M, why)
         if op == ">>":
             s = self._const(R)
@@ -559,6 +562,15 @@ class Limbs:
             if not R.p:
                 return L
             raise Undecided("or %s" % show(e)[:60])
+        if op in ("/", "%") and set(R.p) == {()}:
+            d = R.p[()]
+            if d > 0 and d & (d - 1) == 0:
+                lo, q = self.split(L, d, why)
+                return q if op == "/" else lo
+            if set(L.p) <= {()}:
+                c = L.p.get((), 0)
+                return Val(pconst(c // d), c // d) if op == "/" else Val(pconst(c % d), c % d)
+            raise Undecided("division by %d" % d)
         if op == "-":
             if set(L.p) <= {()} and set(R.p) <= {()} and L.p.get((), 0) >= R.p.get((), 0):
                 c = L.p.get((), 0) - R.p.get((), 0)
